@@ -1065,6 +1065,20 @@ func c12g(c *Ctx) {
 			}
 			key := fmt.Sprintf("%s/case-parser#%d", c.W.FuncKey(fn), n)
 			pos := c.W.Pos(call.Pos())
+			// a method expression ((*Parser).parseMartValue) or method value is a synthetic wrapper
+			// around the method: look through it
+			for d := 0; g != nil && g.Synthetic != "" && d < 3; d++ {
+				var inner *ssa.Function
+				for _, ci := range callsIn(g) {
+					if f := callee(ci); f != nil && c.W.InRepo(f) {
+						inner = f
+					}
+				}
+				if inner == nil {
+					break
+				}
+				g = inner
+			}
 			if g == nil {
 				c.Unk(key, pos, "cannot resolve the value parser handed to parsePoryswitchListStatement")
 				continue
